@@ -11,7 +11,13 @@ from native.harness import run_wsgi, run_asgi, wsgi_environ, asgi_scope
 
 def request_view_w(method, path, query, headers, body):
     import baize.wsgi as W
-    req = W.Request(wsgi_environ(method, path, headers, query=query, body=body))
+    env = wsgi_environ(method, path, headers, query=query, body=body)
+    # PEP 3333: a server may pass the optional CGI variables as empty strings instead of leaving them out - the same
+    # abstract request either way (alternating, so that both presentations are exercised)
+    if (len(path) + len(query) + len(headers)) % 2:
+        for k in ("CONTENT_TYPE", "CONTENT_LENGTH"):
+            env.setdefault(k, "")
+    req = W.Request(env)
     return view(req, lambda name: getattr(req, name))
 
 
